@@ -198,6 +198,7 @@ func c08(args []string) error {
 			}
 			return out
 		}
+		hotView := int(r.VS.View()) + []int{0, 1, 2, 5, 11, 12, 30}[rng.Intn(7)]
 		for m := 0; m < *length; m++ {
 			cur := int(r.VS.View())
 			if rng.Intn(8) == 0 { // R's own timer
@@ -220,7 +221,12 @@ func c08(args []string) error {
 			if s == R {
 				s = 1 + (s % n)
 			}
-			v := cur + []int{0, 0, 0, 0, 1, 1, -1, 2, 5}[rng.Intn(9)]
+			// (besides the views around R's own: views far ahead of it -- R may lag by any distance -- and a "hot" view of the sequence
+			// that many senders time out in)
+			v := cur + []int{0, 0, 0, 0, 1, 1, -1, 2, 5, 11, 12, 40}[rng.Intn(12)]
+			if rng.Intn(3) == 0 {
+				v = hotView
+			}
 			if v < 1 {
 				v = 1
 			}
